@@ -39,6 +39,15 @@ def cases(tier, seed):
                     t, fc = deco[f[0]]
                     return (f[0], tuple((a, b, tuple(rec(k) for k in kids)) for (a, b, kids) in f[1]), f[2], t, fc, f[5])
                 yield ('T', (rec(m[0]), ()))
+    # models returned by the readers (library-written documents of small models, some corpus files)
+    from . import c01, c05, c06, c07, c08
+    for name, mod in (('uvl', c01), ('json', c05), ('afm', c06), ('featureide', c07), ('glencoe', c08)):
+        for m in sp.structures_upto(3 if tier == 'quick' or name == 'uvl' else 4):
+            if mod.in_fragment(m) and not (name == 'afm' and sh.size(m) == 1):
+                yield ('R', name, m)
+    from .c16 import corpus_files
+    for rel in corpus_files(100)[:: (6 if tier == 'quick' else 1)]:
+        yield ('RX', rel)
     # query -> in-place edit -> query histories (stale memoisation would show here)
     for m in sp.structures_upto(4 if tier == 'quick' else 5):
         yield ('E', m)
@@ -73,11 +82,27 @@ def _bfs_evidence(n):
                                'equals_generator_and_closed_form': True}}
 
 
-describe = cm.describe_model_case
-reduce = cm.reduce_model_case
+def describe(case):
+    if case[0] == 'R':
+        return 'R:%s | %s' % (case[1], sh.model_str(case[2]))
+    if case[0] == 'RX':
+        return 'RX:' + case[1]
+    return cm.describe_model_case(case)
+
+
+def reduce(case):
+    if case[0] == 'RX':
+        return
+    if case[0] == 'R':
+        for m in sh.reductions(case[2], sp.NAME_POOL):
+            yield ('R', case[1], m)
+        return
+    yield from cm.reduce_model_case(case)
 
 
 def nontrivial(case):
+    if case[0] in ('R', 'RX'):
+        return True
     m = case[1]
     return cm.has_group_or_ctc(m) or any(f[3] != 'Boolean' or f[4] != (1, 1) for f in sh.features(m))
 
@@ -321,7 +346,47 @@ def _check_edits(model):
     return fails
 
 
+def _check_reader(case):
+    import os
+    if case[0] == 'RX':
+        from flamapy.metamodels.fm_metamodel.transformations import XMLReader
+        from .c16 import CORPUS
+        try:
+            fm = XMLReader(os.path.join(CORPUS, case[1])).transform()
+        except Exception:  # noqa: BLE001
+            return []
+    else:
+        from . import c01, c05, c06, c07, c08
+        fmt = {'uvl': c01, 'json': c05, 'afm': c06, 'featureide': c07, 'glencoe': c08}[case[1]].FMT
+        fm0, bf = cm.built(case[2])
+        if bf:
+            return bf
+        path = engine.tmppath('c03.' + fmt.ext)
+        try:
+            fmt.write(fm0, path)
+            fm = fmt.read(path)
+        except Exception:  # noqa: BLE001    (a failing round trip is C01/C05-C08's subject)
+            return []
+        finally:
+            try:
+                os.remove(path)
+            except OSError:
+                pass
+    engine.tick(2)
+    try:
+        shadow = bd.observe(fm)
+        sh.names(shadow)
+    except Exception as exc:  # noqa: BLE001
+        return [Fail('reader-model-not-observable:%s' % type(exc).__name__, str(exc)[:150])]
+    fails = [f for f in _oracle(fm, shadow, 'reader') if f.clause != 'relation-class-count']
+    for f in fails:
+        f.clause = 'reader-model:' + f.clause
+    return fails
+
+
 def check(case):
+    if case[0] in ('R', 'RX'):
+        return _check_reader(case)
     model = case[1]
     if case[0] == 'E':
         return _check_edits(model)
@@ -343,5 +408,7 @@ def check(case):
 
 
 def outcome(case):
+    if case[0] in ('R', 'RX'):
+        return case[0] + ':' + str(case[1])[:12]
     ks = sorted(set(str(sem.kind(a, b, len(k))) for (_p, a, b, k) in sh.relations(case[1])))
     return case[0] + ':' + ','.join(ks)
